@@ -291,6 +291,23 @@ where
                     let _ = sender.send(Ok(rx_packet));
                 }
             }
+            RxPacket::Pubrec(pubrec) => {
+                let failed = pubrec.reason as u8 >= 0x80;
+                let rx_packet = RxPacket::Pubrec(pubrec);
+                let action_id = utils::rx_action_id(&rx_packet);
+
+                // PUBREC with a failure reason ends the QoS 2 exchange and releases its quota slot.
+                if failed && connection.send_quota != connection.remote_receive_maximum {
+                    connection.send_quota += 1;
+                }
+
+                if let Some((_, sender)) =
+                    utils::linear_search_by_key(&session.awaiting_ack, action_id)
+                        .and_then(|pos| session.awaiting_ack.remove(pos))
+                {
+                    let _ = sender.send(Ok(rx_packet));
+                }
+            }
             RxPacket::Pubrel(pubrel) => {
                 let packet_id = pubrel.packet_identifier;
                 Self::ack::<PubcompReason>(tx, packet_id).await?
